@@ -51,9 +51,13 @@ def run(spec):
         except Exception as e:  # a pre that raises is treated like CrossHair does: not met
             out["pre"] = False
             out["failed_pre"] = "%s raised %r" % (p, e)
+    from engine.harness_api import StubGap
     try:
         r = fn(**kwargs)
         out["result"] = bool(r)
+    except StubGap as e:
+        out["result"] = "stubgap"           # the stub does not model something the code now uses: harness error
+        out["exception"] = str(e)
     except Exception as e:
         if type(e).__name__ in raises:
             out["result"] = True
